@@ -87,7 +87,12 @@ def gen_history(rng, hostile=True, clash_ok=True):
             return rng.pick(SHARED_CONTENTS)
         nonce[0] += 1
         pad = b"" if k < 8 else b"." * rng.range(1, 5000)
-        return b"%s:%d:%d:" % (side.encode(), stepno, nonce[0]) + pad
+        head = b"%s:%d:%d:" % (side.encode(), stepno, nonce[0])
+        if rng.chance(1, 12):
+            # sizes that sit exactly on, just below and just above the boundaries an implementation may branch on
+            want = rng.pick([65536, 1 << 20, 1 << 20, (1 << 20) - 1, (1 << 20) + 1, 262144, 8192])
+            return (head + b"#" * want)[:want]
+        return head + pad
 
     # initial trees
     for p in paths:
@@ -188,6 +193,9 @@ def scripted_histories():
     for side in "AB":
         for fresh in (b"n1", b"n2", b"n3", b"n4"):
             H.append([("w", "A", "f", b"base"), ("w", "B", "f", b"base"), ("s",), ("w", "A", "f", b"a1"), ("w", "B", "f", b"b1"), ("s",), ("wc", "A", 0, b"copy-edited-on-A"), ("wc", "B", 0, b"copy-edited-on-B"), ("rc", side, 0, fresh), ("s",), ("s",)])
+    # a name that is not valid UTF-8
+    H.append([("w", "A", "keep", Z), ("w", "B", "keep", Z), ("s",), ("w", "A", "caf\udce9.txt", Y), ("s",), ("s",), ("d", "B", "caf\udce9.txt"), ("s",)])
+    H.append([("w", "B", "d/\udcff\udcfe", X), ("w", "A", "g", Y), ("s",), ("s",)])
     # the receiving file has a second hard link elsewhere
     H.append([("w", "A", "f", Z), ("w", "B", "f", Z), ("w", "A", "g", Y), ("w", "B", "g", Y), ("s",), ("hl", "B", "f"), ("hl", "A", "g"), ("w", "A", "f", X), ("d", "B", "g"), ("s",), ("s",)])
     # recreate after delete propagated
@@ -1210,6 +1218,9 @@ def c08_scenarios():
     S["readonly-files"] = [("w", "A", "f", Z), ("w", "B", "f", Z), ("w", "A", "g", Y), ("w", "B", "g", Y), ("w", "A", "h", b"h"), ("w", "B", "h", b"h"), ("s",), ("w", "A", "f", b"f-new"), ("ro", "A", "f"), ("ro", "B", "f"), ("d", "A", "g"), ("ro", "B", "g"), ("w", "A", "h", b"h-a"), ("w", "B", "h", b"h-b"), ("ro", "A", "h"), ("ro", "B", "h")]
     S["hardlinked-destinations"] = [("w", "A", "f", Z), ("w", "B", "f", Z), ("w", "A", "big", big), ("w", "B", "big", big), ("w", "A", "g", Y), ("w", "B", "g", Y), ("s",), ("hl", "B", "f"), ("hl", "B", "big"), ("hl", "A", "g"), ("w", "A", "f", b"f-new"), ("w", "A", "big", big[::-1]), ("w", "B", "g", b"g-new")]
     S["big-file-640K"] = [("w", "A", "keep", Z), ("w", "B", "keep", Z), ("s",), ("w", "A", "big", big)]
+    big15 = (b"fedcba9876543210" * 4096) * 24  # 1.5 MiB
+    S["big-file-1.5M-create"] = [("w", "A", "keep", Z), ("w", "B", "keep", Z), ("s",), ("w", "B", "dir/big15", big15)]
+    S["big-file-1.5M-replace"] = [("w", "A", "big15", big15), ("w", "B", "big15", big15), ("s",), ("w", "A", "big15", big15[::-1])]
     S["big-replace"] = [("w", "A", "big", big), ("w", "B", "big", big), ("s",), ("w", "B", "big", big[::-1])]
     return S
 
